@@ -111,7 +111,7 @@ let show_res = function
   | RFrrReloadU -> "frrreloadU" | RStartupSaveU -> "startupsaveU"
   | RFrrReload -> "frrreload" | RStartupSave -> "startupsave" | RVersionSave -> "versionsave"
   | RBadVersion -> "badversion" | RBadVerType -> "badvertype" | RNotImpl -> "notimpl" | RModelFuel -> "MODELFUEL"
-  | RInadmissible -> "INADMISSIBLE" | RBootErr -> "booterr" | RBootVersion -> "bootversion"
+  | RInadmissible -> "INADMISSIBLE" | RBootErr -> "booterr" | RBootVersion -> "bootversion" | RSaveFail -> "savefail"
 let show_ev = function
   | EApply (p, v, ok) -> (if ok then "A:" else "A!") ^ string_of_path p ^ "=" ^ token_of_value v
   | ERollback (p, v, ok) -> (if ok then "R:" else "R!") ^ string_of_path p ^ "=" ^ token_of_value v
@@ -311,6 +311,9 @@ let run_case (var : variant) (line0 : string) (impl : string) : string =
             p := !p + 5; o
           | "t" -> let o = OTick (n_of_decimal f.(!p + 1)) in p := !p + 2; o
           | "b" -> let o = ORollback (n_of_decimal f.(!p + 1)) in p := !p + 2; o
+          | "S" -> let o = OSaveStartup (f.(!p + 1) = "1") in p := !p + 2; o
+          | "Z" -> p := !p + 1; OReset
+          | "F" -> let o = OReloadFRR (nat_of_int (match f.(!p + 1) with "r" -> 1 | "R" -> 2 | _ -> 0)) in p := !p + 2; o
           | "l" ->
             let add = store_of_entries f.(!p + 3) in
             let drop = if f.(!p + 3) = "-" then [intern "~nothing"] else [intern "subscriber-groups"] in
